@@ -7,7 +7,7 @@ import types
 
 import z3
 
-from pyvc.values import SV, SymMap, SymObj, SymSeq, NativeModel, Leaf, NameSort, real_val, Unsupported
+from pyvc.values import SV, SymMap, SymObj, SymSeq, NativeModel, Leaf, NameSort, real_val, Unsupported, GenericIter
 from pyvc.amlmodel import ModelStub, Con
 from pyvc.interp import PyRaise
 
@@ -217,13 +217,13 @@ class WN2(NativeModel):
         return self._find(self._L, name, self.generic_link)
 
     def _of(self, table, *classes):
-        return [(nm, o) for nm, o in table if issubclass(getattr(o, "cls", type(o)), classes)]
+        return GenericIter([(nm, o) for nm, o in table if issubclass(getattr(o, "cls", type(o)), classes)])
 
-    def nodes(self):
-        return list(self._N)
+    def nodes(self, typ=None):
+        return GenericIter([(nm, o) for nm, o in self._N if typ is None or issubclass(getattr(o, "cls", type(o)), typ)])
 
-    def links(self):
-        return list(self._L)
+    def links(self, typ=None):
+        return GenericIter([(nm, o) for nm, o in self._L if typ is None or issubclass(getattr(o, "cls", type(o)), typ)])
 
     def junctions(self):
         return self._of(self._N, Junction)
@@ -298,3 +298,25 @@ def list_map(label):
     m = SymMap(lambda k: z3.BoolVal(True), get, label=label)
     m.cache = cache
     return m
+
+
+def time_options(cx, **over):
+    """options.time with every field present (symbolic positive integers unless overridden)."""
+    f = {}
+    for nm in ("duration", "hydraulic_timestep", "quality_timestep", "rule_timestep", "pattern_timestep", "report_timestep"):
+        if nm in over:
+            f[nm] = over[nm]
+        else:
+            v = cx.int("opt_" + nm)
+            cx.assume(cx.t(v) > 0)
+            f[nm] = v
+    for nm in ("pattern_start", "report_start", "start_clocktime"):
+        if nm in over:
+            f[nm] = over[nm]
+        else:
+            v = cx.int("opt_" + nm)
+            cx.assume(cx.t(v) >= 0)
+            f[nm] = v
+    f["pattern_interpolation"] = over.get("pattern_interpolation", False)
+    f["statistic"] = over.get("statistic", "NONE")
+    return cx.obj(types.SimpleNamespace, **f)
